@@ -9,6 +9,19 @@ package simrt
 
 import "sync"
 
+// Yield, when set by the simulator, is called at every lock acquisition and
+// release of a rewritten mutex: a scheduling point at which the simulator may
+// let other runnable goroutines go first (seeded, so that lock-granularity
+// interleavings - check-then-act across two critical sections - are explored
+// and replayed). Nil outside the windows in which a scenario asks for it.
+var Yield func()
+
+func yield() {
+	if h := Yield; h != nil {
+		h()
+	}
+}
+
 // Mutex has the semantics of sync.Mutex but a goroutine waiting for it is
 // parked in sync.Cond.Wait, which testing/synctest treats as durably blocked
 // (a goroutine waiting in sync.Mutex.Lock is not, and would stall the fake
@@ -21,6 +34,7 @@ type Mutex struct {
 }
 
 func (m *Mutex) Lock() {
+	yield()
 	m.mu.Lock()
 	if m.cond == nil || m.self != m {
 		m.cond = sync.NewCond(&m.mu)
@@ -44,6 +58,7 @@ func (m *Mutex) Unlock() {
 		m.cond.Signal()
 	}
 	m.mu.Unlock()
+	yield()
 }
 
 // RWMutex: writer-preferring is not required by the sync contract; keep it simple.
@@ -61,6 +76,7 @@ func (m *RWMutex) init() {
 }
 
 func (m *RWMutex) Lock() {
+	yield()
 	m.mu.Lock()
 	m.init()
 	for m.writer || m.readers > 0 {
@@ -80,9 +96,11 @@ func (m *RWMutex) Unlock() {
 	m.writer = false
 	m.cond.Broadcast()
 	m.mu.Unlock()
+	yield()
 }
 
 func (m *RWMutex) RLock() {
+	yield()
 	m.mu.Lock()
 	m.init()
 	for m.writer {
@@ -104,6 +122,7 @@ func (m *RWMutex) RUnlock() {
 		m.cond.Broadcast()
 	}
 	m.mu.Unlock()
+	yield()
 }
 
 func (m *RWMutex) RLocker() sync.Locker { return (*rlocker)(m) }
